@@ -19,7 +19,7 @@ na = {
 CHECKS = {
  "C05": dict(
    text="Seeded simulation of API histories (create Environment / compile / program / evaluate over up to 4 environments of both runner classes, with abort-at-arbitrary-line and host-exception faults); every operation is compared with the same operation performed alone from a pristine library state. Sampling over seeds, not proof: it decides independence from history on the histories explored.",
-   note="Reference = the implementation itself run alone (decides history-independence, not semantic correctness). Isolation between runs is a fresh set of celpy module objects (reload isolation), cross-checked against real fresh-interpreter runs by the selftest. Abort points are Python lines of celpy and of transpiled code; lark/re2/pendulum are atomic.",
+   note="Reference = the implementation itself run alone (decides history-independence, not semantic correctness). Isolation between runs is a fresh set of celpy module objects (reload isolation) in fresh threads; identical Lark parsers are constructed once per process and then loaded from lark's own serialisation; both are cross-checked on every run against a fresh interpreter using the real constructor (determinism sample). Abort points are Python lines of celpy and of transpiled code; lark/re2/pendulum are atomic.",
    technique="deterministic simulation: seeded API-history + fault-injection search with alone-run reference oracle, ddmin-minimised replay files",
    ref="3 (C05)"),
  "C14": dict(
@@ -33,7 +33,7 @@ CHECKS = {
    technique="deterministic simulation: seeded evaluation histories against an in-process fake Custodian filter and simulated network with fault injection; lifecycle invariants + reference-model oracle; ddmin replay",
    ref="3 (C17)"),
  "C16": dict(
-   text="2-4 real threads, each with its own Environment/program/bindings (the documented contract), run under a seeded baton-passing scheduler that pre-empts at every Python line of celpy and of transpiled code (policies: PCT depth<=3, random, hot-site-biased, round-robin; optional abort fault in one thread); every outcome must equal the same thread run alone; bounded liveness (<= 50x the alone step count). Sampling of schedules, not enumeration.",
+   text="2-4 real threads, each with its own Environment/program/bindings (the documented contract), run under a seeded baton-passing scheduler that pre-empts at every Python line of celpy and of transpiled code (policies: PCT depth<=3, random, hot-site-biased, focus and single-point pre-emption inside functions that a static analysis of the tree finds touching shared state, round-robin; optional abort fault in one thread; cooperative model of Lock/RLock); every outcome must equal the same thread run alone; bounded liveness (<= 50x the alone step count). Sampling of schedules, not enumeration.",
    note="Pre-emption granularity is one source line (sys.monitoring LINE events); C extensions, lark (except in trace_lark runs of the thorough tier) and the stdlib are atomic. The choice of who runs is the only stub. Free-running OS-scheduled stress is deliberately not used (not replayable).",
    technique="deterministic simulation: real threads under a seeded baton-passing scheduler (PCT/random/hot policies), alone-run oracle, schedule ddmin, explicit switch-list replay",
    ref="3 (C16)"),
@@ -70,7 +70,7 @@ m = {
  "engines": [{"name": "sim", "path": "/verif/sim", "serves_properties": sorted(CHECKS),
               "kind_free_text": "deterministic simulator: one seed -> explicit JSON trace (operations, faults, schedule) -> execution of the real library under a seeded baton-passing thread scheduler / fault injector -> history oracles -> ddmin -> replay file"}],
  "checks": [check(p, c) for p, c in sorted(CHECKS.items())],
- "notes": "Technique family: deterministic simulation with fault injection. See DESIGN.md. Genuine defects repaired in /repo by 'fix:' commits are listed in known_findings.json.",
+ "notes": "Technique family: deterministic simulation with fault injection. See DESIGN.md. Genuine defects repaired in /repo by 'fix:' commits and the two recorded (not repairable without editing the pinned tests) findings are listed in known_findings.json; seeded property-breaking changes and behaviour-preserving negative controls with the checks' verdicts are under seeded/ and negative/.",
  "not_applicable": [{"property_id":k,"reason":v} for k,v in na.items() if k not in CHECKS]
 }
 json.dump(m, open("/verif/MANIFEST.json","w"), indent=1)
